@@ -397,6 +397,31 @@ def is_normal(ctx, q):
     return all(t != 0 for t in total.values())
 
 
+def mixed_units(db, q):
+    """does the ordered dict hold two DIFFERENT units of one quantity type"""
+    seen = {}
+    try:
+        for c, u, _e in q:
+            qt = db.GetCategoryQuantityType(c)
+            if seen.setdefault(qt, u) != u:
+                return True
+    except Exception:
+        return False
+    return False
+
+
+def dimension(db, q):
+    """quantity type -> total exponent (zero totals dropped); None when a category is unknown"""
+    d = {}
+    try:
+        for c, _u, e in q:
+            qt = db.GetCategoryQuantityType(c)
+            d[qt] = d.get(qt, 0) + int(e)
+    except Exception:
+        return None
+    return {qt: e for qt, e in d.items() if e != 0}
+
+
 def buildable(spec):
     try:
         build(spec)
